@@ -2,9 +2,9 @@ package main
 
 import (
 	"fmt"
-	"os"
 	"go/token"
 	"go/types"
+	"os"
 	"sort"
 	"strings"
 
@@ -23,7 +23,7 @@ var c08Entries = []entryRef{
 	{"hdkeychain", "NewKeyFromString"},
 	{"bloom", "LoadFilter"}, {"bloom", "(*Filter).Reload"}, {"bloom", "(*Filter).Add"}, {"bloom", "(*Filter).AddHash"},
 	{"bloom", "(*Filter).AddOutPoint"}, {"bloom", "(*Filter).Matches"}, {"bloom", "(*Filter).MatchesOutPoint"},
-	{"bloom", "(*Filter).MatchTxAndUpdate"},
+	{"bloom", "(*Filter).MatchTxAndUpdate"}, {"bloom", "GetMatchedIndices"},
 	{"merkleblock", "NewMerkleBlockFromMsg"}, {"merkleblock", "(*PartialBlock).ExtractMatches"},
 	{"gcs", "FromBytes"}, {"gcs", "FromNBytes"}, {"gcs", "(*Filter).Match"}, {"gcs", "(*Filter).MatchAny"},
 	{"gcs", "(*Filter).ZipMatchAny"}, {"gcs", "(*Filter).HashMatchAny"},
@@ -158,8 +158,9 @@ func checkC08(p *Program, r *Report) {
 	r.extra["discharge_methods"] = hows
 	r.Floor("C08.bounds", 130)
 	r.Floor("C08.loops", 30)
-	r.Floor("C08.recursion", 2)
+	r.Floor("C08.recursion", 3)
 	r.Floor("C08.alloc", 6)
+	r.Floor("C08.external", 4)
 }
 
 func dedupStrings(in []string) []string {
@@ -1095,7 +1096,122 @@ func recursionDescends(p *Program, f *ssa.Function) (bool, string) {
 			return true, fmt.Sprintf("every recursive call receives a strict sub-term of parameter %s (element of a finite tree), each element at most once per path", pa.Name())
 		}
 	}
+	if ok, how := markedSetGuard(p, f, calls); ok {
+		return true, how
+	}
 	return false, "no parameter decreases on every recursive call"
+}
+
+// markedSetGuard: the recursion is a graph walk with a visited set.  Every recursive call is
+// dominated by (1) the failing edge of a test M[k] and (2) the update M[k] = true, where M is a map
+// held in a field of a parameter and k is a parameter; and nothing in the repository ever deletes
+// from that field's map or stores anything but true into it.  Then each key passes the guard at
+// most once in the whole run, so the number of recursive calls is bounded by the number of keys
+// times the (separately bounded) loops of one activation: no repeated work per path.
+func markedSetGuard(p *Program, f *ssa.Function, calls []*ssa.Call) (bool, string) {
+	if len(calls) == 0 {
+		return false, ""
+	}
+	type mk struct {
+		field *types.Var
+		base  ssa.Value
+		key   ssa.Value
+	}
+	mapOf := func(v ssa.Value) (*types.Var, ssa.Value, bool) {
+		fld, base, ok := fieldLoad(v)
+		if !ok {
+			return nil, nil, false
+		}
+		if _, isMap := fld.Type().Underlying().(*types.Map); !isMap {
+			return nil, nil, false
+		}
+		if _, isParam := base.(*ssa.Parameter); !isParam {
+			return nil, nil, false
+		}
+		return fld, base, true
+	}
+	isParam := func(v ssa.Value) bool {
+		_, ok := v.(*ssa.Parameter)
+		return ok
+	}
+	var cands []mk
+	for _, b := range f.Blocks {
+		for _, in := range b.Instrs {
+			if mu, ok := in.(*ssa.MapUpdate); ok {
+				if fld, base, ok := mapOf(mu.Map); ok && isParam(mu.Key) {
+					if v, isB := constBool(mu.Value); isB && v {
+						cands = append(cands, mk{fld, base, mu.Key})
+					}
+				}
+			}
+		}
+	}
+	for _, c := range cands {
+		okAll := true
+		for _, call := range calls {
+			// (2) the marking dominates the call
+			marked := false
+			for _, b := range f.Blocks {
+				for _, in := range b.Instrs {
+					if mu, ok := in.(*ssa.MapUpdate); ok {
+						if fld, base, ok := mapOf(mu.Map); ok && fld == c.field && base == c.base && mu.Key == c.key && instrDominates(mu, call) {
+							marked = true
+						}
+					}
+				}
+			}
+			// (1) the failing edge of M[k] lies on every path to the call
+			guarded := false
+			for _, cd := range MustCondsAtBlock(f, call.Block()) {
+				v, truth := cd.V, cd.Truth
+				if u, ok := v.(*ssa.UnOp); ok && u.Op == token.NOT {
+					v, truth = u.X, !truth
+				}
+				if ex, ok := v.(*ssa.Extract); ok { // _, ok := M[k]
+					if lk, ok := ex.Tuple.(*ssa.Lookup); ok && ex.Index == 1 {
+						v = lk
+					}
+				}
+				lk, ok := v.(*ssa.Lookup)
+				if !ok || truth {
+					continue
+				}
+				if fld, base, ok := mapOf(lk.X); ok && fld == c.field && base == c.base && lk.Index == c.key {
+					guarded = true
+				}
+			}
+			// the key handed on is passed in the same parameter position as k (so the guard of the callee tests it)
+			if !marked || !guarded {
+				okAll = false
+			}
+		}
+		if !okAll {
+			continue
+		}
+		// nothing un-marks: no delete on, and no non-true store into, this field's map anywhere in the repository
+		for _, g := range p.Funcs {
+			for _, b := range g.Blocks {
+				for _, in := range b.Instrs {
+					switch x := in.(type) {
+					case *ssa.MapUpdate:
+						if fld, _, ok := fieldLoad(x.Map); ok && fld == c.field {
+							if v, isB := constBool(x.Value); !isB || !v {
+								return false, "the visited set " + c.field.Name() + " is also written with a value other than true in " + FnName(g)
+							}
+						}
+					case *ssa.Call:
+						if isBuiltin(&x.Call, "delete") {
+							if fld, _, ok := fieldLoad(x.Call.Args[0]); ok && fld == c.field {
+								return false, "entries are deleted from the visited set " + c.field.Name() + " in " + FnName(g)
+							}
+						}
+					}
+				}
+			}
+		}
+		return true, fmt.Sprintf("graph walk with a visited set: every recursive call is behind the failing test of %s[%s] and its marking, and nothing un-marks (each key activates the recursion at most once)", c.field.Name(), c.key.Name())
+	}
+	return false, ""
 }
 
 // isSubTermOf: v is obtained from pa by at least one element step (map range
